@@ -197,6 +197,41 @@ fn build(tier: Tier) -> Vec<Scenario> {
             out.push(program_scenario("C01/api", prog, &[1, 2, 3, 4, 5], src.clone(), &cfg, if tier == Tier::Quick { 0 } else { 1 }, &ORDERS3[..1], String::new()));
         }
     }
+    // inputs larger than a full batch (1024 elements) and than what the channels hold: batches
+    // are cut by size, producers meet back-pressure, frames span many socket writes
+    {
+        let big: Vec<i64> = (0..2500).collect();
+        let big_progs: Vec<Program> = vec![
+            vec![Shuffle, Map],
+            vec![GbSum],
+            vec![FoldAssoc],
+            vec![Dup, Map, Sink, Filter, Sink],
+            vec![Dup, Shuffle, Swap, Merge],
+            vec![BcastMax],
+            vec![Replay(2, vec![Shuffle, Map])],
+            vec![Iterate(2, vec![Shuffle, Filter])],
+        ];
+        let mut cfgs = vec![
+            JobCfg { layout: Layout::Local(2), batch: BatchMode::fixed(1024), capacity: 0 },
+            JobCfg { layout: Layout::Local(2), batch: BatchMode::adaptive(1024, std::time::Duration::from_millis(10)), capacity: 2 },
+            JobCfg { layout: Layout::Remote(vec![1, 1]), batch: BatchMode::fixed(1024), capacity: 0 },
+        ];
+        if tier == Tier::Thorough {
+            cfgs.push(JobCfg { layout: Layout::Local(3), batch: BatchMode::fixed(100), capacity: 1 });
+        }
+        for cfg in &cfgs {
+            let cores = cfg.layout.total_cores() as usize;
+            for prog in &big_progs {
+                if cfg.layout.hosts() > 1 && prog.iter().any(|i| matches!(i, Replay(..) | Iterate(..))) && tier == Tier::Quick {
+                    continue;
+                }
+                let mut sc = program_scenario("C01/big", prog, &big, SrcKind::Par((0..big.len()).map(|i| (i / 7) % cores).collect()), cfg, 0, &ORDERS3[..if tier == Tier::Quick { 1 } else { 3 }], String::new());
+                sc.name = format!("C01/big/{}/in0..2500/{}", crate::program::show(prog), cfg.name());
+                sc.descr = format!("program {} over the input 0..2500 spread over the source replicas, config {}", crate::program::show(prog), cfg.name());
+                out.push(sc);
+            }
+        }
+    }
     // remote layouts, heterogeneous hosts
     let remote_progs: Vec<Program> = vec![
         vec![Map],
